@@ -81,6 +81,36 @@ def _morph_funcs(A, b):
     return fs
 
 
+def _other_operand(m, spec):
+    """second operand of + / @ / *: a fresh mesh from the recipe, or (spec['from_self']) the chain's current mesh run
+    through library transformations - a translated, negatively scaled or mirrored image of itself, which meets the
+    original along an interface whose coordinates are equal as NUMBERS (e.g. 0.0 and -0.0, the product 0.0 * -1)."""
+    if 'from_self' not in spec:
+        return make_mesh(spec)
+    o = m
+    for t in spec['from_self']:
+        if t['op'] == 'translated':
+            o = o.translated([float(x) for x in t['d']])
+        elif t['op'] == 'scaled':
+            o = o.scaled([float(x) for x in t['f']])
+        elif t['op'] == 'mirrored':
+            n = [0.0] * m.p.shape[0]
+            n[t['axis']] = 1.0
+            pt = tuple(float(t['c']) if i == t['axis'] else 0.0 for i in range(m.p.shape[0]))
+            o = o.mirrored(tuple(n), pt)
+        else:
+            raise ValueError(t['op'])
+    return o
+
+
+def _flip_zero_sign(q):
+    """numerically the same point: every zero coordinate with the other sign (0.0 <-> -0.0)."""
+    q = np.array(q, dtype=np.float64)
+    z = q == 0
+    q[z] = -q[z]
+    return q
+
+
 def apply_step(m, st):
     """Execute one step on the real classes.  Returns (operands, results, par (raw), next mesh)."""
     import skfem
@@ -103,14 +133,14 @@ def apply_step(m, st):
         par.update(elements=st['elements'])
         return [m], [r], par, r
     if op == 'add':
-        o = make_mesh(st['other'])
+        o = _other_operand(m, st['other'])
         ck = mesh_checksums(o)
         r = (o + m) if st.get('swap') else (m + o)
         par['_cko'] = (ck, mesh_checksums(o))
         par['self'] = 2 if st.get('swap') else 1
         return ([o, m] if st.get('swap') else [m, o]), [r], par, r
     if op == 'matmul':
-        o = make_mesh(st['other'])
+        o = _other_operand(m, st['other'])
         ck = mesh_checksums(o)
         rs = m @ o
         par['_cko'] = (ck, mesh_checksums(o))
@@ -219,9 +249,14 @@ def _setup(m, st):
         for (cell, loc) in st['where']:
             v = t[loc, cell]
             t[loc, cell] = p.shape[1] + len(add)
-            add.append(p[:, v])
+            add.append(_flip_zero_sign(p[:, v]) if (st.get('signed_zero') and len(add) % 2 == 0) else p[:, v])
         p2 = np.hstack((p, np.array(add).T))
         return type(m)(p2, t)
+    if what == 'concat_transformed_self':
+        # the raw concatenation of the mesh and a transformed image of itself (what + builds before it merges): the
+        # vertices on the common interface exist twice; input of remove_duplicate_nodes
+        o = _other_operand(m, {'from_self': st['from_self']})
+        return type(m)(np.hstack((m.p, o.p)), np.hstack((m.t, o.t + m.p.shape[1])))
     if what == 'retag':
         bnd = {name: np.array(f, dtype=np.int64) for name, f in st['bnd'].items()}
         sub = {name: np.array(f, dtype=np.int64) for name, f in st['sub'].items()}
@@ -418,6 +453,32 @@ def _adjacent_other(m, rng, same_kind=True):
     return _mesh_spec(k2, p, t)
 
 
+def _self_image(m, rng, variant=None):
+    """transformations (library calls, see _other_operand) that map the mesh to an image of itself on the other side of
+    a face of its bounding box or of a coordinate plane, so that the two meet along an interface without overlapping:
+    0 translation by the extent, 1 negative scaling factor along an axis (reflection through the coordinate plane),
+    2 mirrored() across a bounding-box face, 3 all factors negative (point reflection through the origin)."""
+    lo, hi = _bbox(m)
+    dim = m.p.shape[0]
+    ax = int(rng.integers(dim))
+    v = int(rng.integers(4)) if variant is None else variant
+    if v == 0:
+        if hi[ax] == lo[ax]:
+            return None
+        return [{'op': 'translated', 'd': [float(hi[ax] - lo[ax]) if i == ax else 0.0 for i in range(dim)]}]
+    if v == 1:
+        axes = [i for i in range(dim) if lo[i] >= 0 or hi[i] <= 0]
+        if not axes:
+            return None
+        ax = axes[int(rng.integers(len(axes)))]
+        return [{'op': 'scaled', 'f': [-1.0 if i == ax else 1.0 for i in range(dim)]}]
+    if v == 2:
+        return [{'op': 'mirrored', 'axis': ax, 'c': float([lo[ax], hi[ax]][int(rng.integers(2))])}]
+    if all(lo[i] >= 0 for i in range(dim)) or all(hi[i] <= 0 for i in range(dim)):
+        return [{'op': 'scaled', 'f': [-1.0] * dim}]
+    return None
+
+
 def _line_spec(rng):
     pts = sorted(set(int(x) for x in rng.integers(0, 6, size=int(rng.integers(3, 6)))))
     if len(pts) < 2:
@@ -447,6 +508,10 @@ def propose(m, rng, allow):
             st['skips'] = 1 - st['skipb']
         return st
     if op == 'add':
+        if rng.random() < 0.5:
+            fs = _self_image(m, rng)
+            if fs is not None:
+                return {'op': 'add', 'other': {'from_self': fs}, 'swap': int(rng.integers(2))}
         o = _adjacent_other(m, rng, True)
         if o is None or kind == 'wedge':
             return None
@@ -454,6 +519,10 @@ def propose(m, rng, allow):
     if op == 'matmul':
         if kind not in ('tri', 'quad', 'tet', 'hex'):
             return None
+        if rng.random() < 0.3:
+            fs = _self_image(m, rng)
+            if fs is not None:
+                return {'op': 'matmul', 'other': {'from_self': fs}}
         o = _adjacent_other(m, rng, False)
         return {'op': 'matmul', 'other': o}
     if op in ('remove_unused_nodes', 'remove_duplicate_nodes', 'oriented', 'refine'):
@@ -538,7 +607,13 @@ def propose(m, rng, allow):
     if op == 'setup_duplicates':
         k = int(rng.integers(1, 4))
         where = sorted({(int(rng.integers(nt)), int(rng.integers(m.t.shape[0]))) for _ in range(k)})
-        return {'op': 'setup', 'what': 'inject_duplicates', 'where': [list(w) for w in where]}
+        return {'op': 'setup', 'what': 'inject_duplicates', 'where': [list(w) for w in where],
+                'signed_zero': int(rng.integers(2))}
+    if op == 'setup_concat_self':
+        fs = _self_image(m, rng)
+        if fs is None or 2 * nt > MAXCELLS:
+            return None
+        return {'op': 'setup', 'what': 'concat_transformed_self', 'from_self': fs}
     if op == 'setup_retag':
         if kind == 'other':
             return None
@@ -579,9 +654,12 @@ def compose(spec, rng, length, allow=ALL_OPS, first=None):
             pre = []
             if st['op'] == 'remove_unused_nodes' and rng.random() < 0.8:
                 pre = [propose(m, rng, ['setup_unused'])]
-            if st['op'] == 'remove_duplicate_nodes' and rng.random() < 0.6:
+            if st['op'] == 'remove_duplicate_nodes' and rng.random() < 0.25:
+                cs = propose(m, rng, ['setup_concat_self'])
+                pre = [cs] if cs is not None else []
+            elif st['op'] == 'remove_duplicate_nodes' and rng.random() < 0.6:
                 pre = [propose(m, rng, ['setup_duplicates'])]
-                if rng.random() < 0.6:
+                if pre[0] is not None and rng.random() < 0.6:
                     # tag the mesh WITH its duplicate vertices (facets of the split cells exist twice): the names have
                     # to follow the merge
                     res, err = guarded(lambda: apply_step(m, pre[0]), 60)
@@ -720,6 +798,29 @@ def generate(tier, seed):
             spec, other = other, spec
         recs.append({'driver': 'surgery', 'mesh': spec, 'steps': [{'op': 'extrude', 'other': other}],
                      'family': 'extrude'})
+    # (7) every base mesh joined (+, @) with a translated / negatively scaled / mirrored / point-reflected image of
+    # itself, directly and after a first transformation, and duplicate removal on the raw concatenation
+    for n, (kind, p, t) in enumerate(specs):
+        if kind in ('line', 'wedge') and n % 2:
+            continue
+        for v in range(4):
+            if not thorough and (n + v) % 2:
+                continue
+            spec = _tagged_spec(kind, p, t, rng)
+            with quiet():
+                m0 = make_mesh(spec)
+                fs = _self_image(m0, rng, variant=v)
+            if fs is None:
+                continue
+            how = (n + v) % 3
+            if how == 0:
+                steps = [{'op': 'add', 'other': {'from_self': fs}, 'swap': int(rng.integers(2))}]
+            elif how == 1 and kind in ('tri', 'quad', 'tet', 'hex'):
+                steps = [{'op': 'matmul', 'other': {'from_self': fs}}, {'op': 'remove_unused_nodes'}]
+            else:
+                steps = [{'op': 'setup', 'what': 'concat_transformed_self', 'from_self': fs},
+                         {'op': 'remove_duplicate_nodes'}]
+            recs.append({'driver': 'surgery', 'mesh': spec, 'steps': steps, 'family': 'self-image'})
     # (5) extrusion along a line mesh with several components (the product of the operands has a gap)
     gl = _mesh_spec('line', [[0., 1., 3., 4.]], [[0, 2], [1, 3]])
     p, t = U.tri_lattice(1, 1, (0,))
@@ -811,6 +912,7 @@ def run(ctx):
         'hexahedra and prisms have planar faces; quadrilaterals are convex',
         'line meshes handed to the extrusion are connected and use all their points',
         'cell subsets handed to restrict / remove_elements hold each cell at most once',
+        'coincident points are points whose coordinates are equal as numbers (0.0 and -0.0 coincide)',
         'coordinates, translations, scalings, mirror planes (axis normals) and morph maps (integer affine, '
         '|det| in 1..3) are integers or dyadic, so every coordinate is exact; generic float parameters are not covered',
         'conformity of the tetrahedra produced by to_meshtet across neighbouring cells is not part of Valid',
